@@ -226,8 +226,21 @@ pub fn run_pair(toks: &[&str], dir: &Path, cap: &mut Capture) -> String {
     let sp = sh.join().is_err();
     let rp = rh.join().is_err();
     let (o, e) = cap.take();
-    let s_out = if sp { "panic".to_string() } else { outcome_of(&e, "while sending", "Sent ", &o) };
-    let r_out = if rp { "panic".to_string() } else { outcome_of(&e, "while receiving", "Received ", &o) };
+    let mut s_out = if sp { "panic".to_string() } else { outcome_of(&e, "while sending", "Sent ", &o) };
+    let mut r_out = if rp { "panic".to_string() } else { outcome_of(&e, "while receiving", "Received ", &o) };
+    if !sp && !rp && (s_out == "none" || r_out == "none") {
+        // the log lines do not carry the wording this harness knows: two lines on stdout and none on stderr still mean two
+        // successes; anything else cannot be attributed to a role
+        let n_out = o.lines().filter(|l| !l.trim().is_empty()).count();
+        let n_err = e.lines().filter(|l| !l.trim().is_empty()).count();
+        if n_out == 2 && n_err == 0 {
+            s_out = "ok".into();
+            r_out = "ok".into();
+        } else {
+            s_out = "unknown".into();
+            r_out = "unknown".into();
+        }
+    }
     let file = match std::fs::read(&dst) {
         Ok(v) => fp(&v),
         Err(_) => "absent".to_string(),
